@@ -255,6 +255,7 @@ def compute_ir(
                 fd_index,
                 itg_data.subdomain_id,
                 prefix,
+                itg_index,
             )
 
     irs = [
